@@ -231,6 +231,8 @@ Hook(h, v) ==
     [] h = "unwrap" -> LET d == DerefAll(v) IN
                        IF d.k = "struct" /\ d.t = "zoo.Wrapper" THEN Ok(d.f[1].v) ELSE Ok(v)
     [] h = "nilret" -> Er
+    [] h = "label" -> IF v.k = "str" /\ v.t = "zoo.NString" THEN Ok([k |-> "str", t |-> "string", v |-> "n:" \o v.v]) ELSE Ok(v)
+    [] h = "nildef" -> IF v.k \in {"nil", "nilptr"} THEN Ok([k |-> "str", t |-> "string", v |-> "dflt"]) ELSE Ok(v)
 
 GetStep(v, part, cfg) ==
   LET d == DerefAll(v)
